@@ -472,6 +472,8 @@ def same(a, b) -> bool:
         return len(a) == len(b) and all(same(x, y) for x, y in zip(a, b))
     if isinstance(a, float) and isinstance(b, float):
         return a == b or (a != a and b != b)
+    if hasattr(a, "data") and hasattr(b, "data") and type(a) is type(b) and callable(getattr(a, "data")):
+        return same(tuple(a.data()), tuple(b.data()))        # vectors / quaternions: element-wise (NaN equals NaN)
     if isinstance(a, (bytes, bytearray, memoryview)) and isinstance(b, (bytes, bytearray, memoryview)):
         return bytes(a) == bytes(b)
     if isinstance(a, np.ndarray) or isinstance(b, np.ndarray):
@@ -531,6 +533,12 @@ def crafted_payloads(cname, ser, key):
                 pod["Glow"][(7, 33)] = 0.5
                 pod["Rotation"][(3,)] = 1.5
                 out.append(bytes(ser.serialize(blk, pod)))
+                # per-face exceptions whose value EQUALS the default are legal on the wire and must survive as written
+                pod2 = ser.deserialize(blk, base, pod=True)
+                pod2["Textures"][(3,)] = pod2["Textures"][None]
+                pod2["Glow"][(5,)] = pod2["Glow"][None]
+                pod2["Color"][(0, 1)] = pod2["Color"][None]
+                out.append(bytes(ser.serialize(blk, pod2)))
         elif cname == "ObjectUpdateExtraParamsSerializer":
             out.append(b"\x02" + b"\x10\x00" + (16).to_bytes(4, "little") + bytes(range(16))
                        + b"\x30\x00" + (17).to_bytes(4, "little") + bytes(range(17)))
@@ -543,17 +551,17 @@ def crafted_payloads(cname, ser, key):
 
 def base_payloads(cname, ser, key):
     """(ctx, payload) pairs the serializer accepts: for every context value that selects a sub-template, the first two
-    accepted non-empty fill patterns (0x00.., 0x01.., lengths <= 200), plus crafted payloads"""
+    accepted non-empty fill patterns (0x00.. twice, 0xff.., 0x80.., lengths <= 200), plus crafted payloads"""
     out = []
     for ctx in contexts_of(ser):
-        for fill in (0, 1):
+        for fill in (0, 0xFF, 0x80):
             found = 0
             for n in range(1, 201):
                 p = bytes([fill]) * n
                 if accepts(ser, key, ctx, p):
                     out.append((ctx, p))
                     found += 1
-                    if found == 2:
+                    if found == (2 if fill == 0 else 1):
                         break
         for p in crafted_payloads(cname, ser, key):
             if accepts(ser, key, ctx, p):
@@ -563,6 +571,16 @@ def base_payloads(cname, ser, key):
         if (c, p) not in dedup:
             dedup.append((c, p))
     return dedup
+
+
+def _untraced(fn):
+    import sys
+    if "crosshair.tracers" in sys.modules:
+        from crosshair.tracers import NoTracing, is_tracing
+        if is_tracing():
+            with NoTracing():
+                return fn()
+    return fn()
 
 
 def fixed_point(ser, key, ctx, payload, pod) -> bool:
@@ -657,10 +675,12 @@ def _mk_payload(cname, key):
         if pos >= len(base):
             return True
         v = MUT_VALUES[small(vi, 0, len(MUT_VALUES) - 1)]
-        return fixed_point(ser, key, ctx, base[:pos] + bytes([v]) + base[pos + 1:], pod)
+        pod = True if pod else False
+        # every selector is concrete now: the serializer runs on the chosen payload outside the tracer
+        return _untraced(lambda: fixed_point(ser, key, ctx, base[:pos] + bytes([v]) + base[pos + 1:], pod))
     mut.__name__ = mut.__qualname__ = f"payload_mut_{ident(cname)}"
     made.append(harness(pre=[f"0 <= bi < {len(bases)}", f"0 <= pos < {maxlen}", f"0 <= vi < {len(MUT_VALUES)}"], post="_",
-                        timeout=250, covers=COVERS,
+                        timeout=500, covers=COVERS,
                         note=f"{cname}: {len(bases)} accepted base payloads (fill patterns per context value + crafted; up to "
                              f"{maxlen} bytes) with ANY one byte position replaced by 0x00/0x01/0x7f/0x80/0xff: if still "
                              "accepted, one decode/encode pass reaches a fixed point decoding to an equal value (both forms)")(mut))
